@@ -18,7 +18,7 @@ From Coq Require Import ZArith Bool List Ascii String Lia ZifyBool.
 From JV.Base Require Import Bytes Utf8 F64 Res.
 From JV.Model Require Import Value Ops Eval LibCore.
 From JV.Spec Require Import C03.
-From JV.Proofs Require Import MonadFacts C03Proofs.
+From JV.Proofs Require Import MonadFacts C03Proofs F64Facts.
 Import ListNotations.
 Local Open Scope list_scope.
 
@@ -399,4 +399,88 @@ Example C10_sum_ex :
     Ok (Some (VNum (f_of_Z 7))) (mkWorld []) /\
   lib_average (Some (VArr [VNum fone; VNum (f_of_Z 2)])) (mkWorld []) =
     Ok (Some (VNum (fdiv (f_of_Z 3) (f_of_Z 2)))) (mkWorld []).
+Proof. vm_compute. repeat split. Qed.
+
+(* ------------------------------------------------------------------------------------ *)
+(* 1b. the range operator, and $count (these two use the Flocq connection of F64Facts,    *)
+(*     hence the axioms of the real numbers in their Print Assumptions)                  *)
+(* ------------------------------------------------------------------------------------ *)
+
+Definition ovalue_valid (v : ovalue) : bool :=
+  match v with Some x => value_valid x | None => true end.
+
+(** [a..b] with a finite (and validly represented) left bound contains only finite numbers:
+    the increment a+1 never overflows (F64Facts.fadd_one_finite) *)
+Theorem C10_range_finite : forall l r v,
+  ovalue_finite l = true -> ovalue_valid l = true ->
+  range_result l r = inl v -> ovalue_finite v = true.
+Proof.
+  intros l r v Fl Vl H.
+  destruct v as [v|]; [|reflexivity].
+  assert (A : exists items, v = VArr items).
+  { destruct l as [[|b1|a|s1|l1|m1|c1]|]; destruct r as [[|b2|b|s2|l2|m2|c2]|];
+      unfold range_result in H; cbn in H;
+      repeat match type of H with
+             | context [if ?c then _ else _] => destruct c
+             end; try discriminate.
+    inversion H. eauto. }
+  destruct A as [items ->].
+  destruct (C03_range_items l r items H) as (a & b & -> & -> & _ & _ & _ & _ & _ & _ & _).
+  rewrite C03_range in H.
+  destruct (f_is_integer a); [|discriminate]. destruct (f_is_integer b); [|discriminate].
+  cbn [negb] in H. destruct (fltb b a); [discriminate|]. destruct (_ || _); [discriminate|].
+  inversion H; subst items. cbn [ovalue_finite]. rewrite value_finite_arr.
+  apply range_items_finite; [exact Vl | exact Fl].
+Qed.
+Print Assumptions C10_range_finite.
+
+Theorem C10_range_valid : forall l r items,
+  ovalue_valid l = true -> range_result l r = inl (Some (VArr items)) ->
+  forallb value_valid items = true.
+Proof.
+  intros l r items Vl H.
+  destruct (C03_range_items l r items H) as (a & b & -> & -> & _ & _ & _ & _ & _ & _ & _).
+  rewrite C03_range in H.
+  destruct (f_is_integer a); [|discriminate]. destruct (f_is_integer b); [|discriminate].
+  cbn [negb] in H. destruct (fltb b a); [discriminate|]. destruct (_ || _); [discriminate|].
+  inversion H; subst items. cbn in Vl. clear H.
+  generalize (Z.to_nat (go_int (fsub b a) + 1)). intro n. revert a Vl.
+  induction n as [|n IH]; intros a Va; [reflexivity|].
+  cbn [range_items forallb value_valid]. rewrite Va. cbn [andb].
+  apply IH. apply valid_fadd; [exact Va | apply valid_f_of_Z].
+Qed.
+
+(** arithmetic results are validly represented *)
+Theorem C10_numeric_valid : forall o l r v,
+  ovalue_valid l = true -> ovalue_valid r = true ->
+  numeric_result o l r = inl v -> ovalue_valid v = true.
+Proof.
+  intros o l r v Vl Vr H.
+  destruct l as [[| |x| | | |]|]; destruct r as [[| |y| | | |]|]; try discriminate;
+    try (inversion H; reflexivity).
+  rewrite C03_arith_value in H. cbv zeta in H.
+  destruct (F64.is_finite (num_apply o x y)); [|destruct (is_inf _); discriminate].
+  inversion H; subst v. cbn in *.
+  destruct o; cbn [num_apply];
+    auto using valid_fadd, valid_fsub, valid_fmul, valid_fdiv, valid_fmod.
+Qed.
+
+(** $count: a finite number (for lengths below 2^53, i.e. always in practice) *)
+Theorem C10_count_finite : forall v,
+  (Z.of_nat (List.length (arrayify v)) < 2 ^ 53)%Z ->
+  value_finite (lib_count v) = true /\
+  lib_count v = VNum (f_of_Z (Z.of_nat (List.length (arrayify v)))).
+Proof.
+  intros v H.
+  assert (E : lib_count v = VNum (f_of_Z (Z.of_nat (List.length (arrayify v))))).
+  { destruct v as [[]|]; reflexivity. }
+  split; [|exact E]. rewrite E. cbn [value_finite]. apply f_of_Z_finite. lia.
+Qed.
+Print Assumptions C10_count_finite.
+
+Example C10_range_ex :
+  range_result (Some (VNum (f_of_Zexp (2 ^ 53 - 1) 971 false))) (Some (VNum (f_of_Zexp (2 ^ 53 - 1) 971 false))) =
+    inl (Some (VArr [VNum (f_of_Zexp (2 ^ 53 - 1) 971 false)])) /\
+  F64.is_finite (fadd (f_of_Zexp (2 ^ 53 - 1) 971 false) fone) = true /\
+  lib_count (Some (VArr [VNull; VNull; VNull])) = VNum (f_of_Z 3).
 Proof. vm_compute. repeat split. Qed.
